@@ -348,6 +348,10 @@ def run(ctx):
     # exact for every finite angle (C11 reads the same rule for the `unreachable!()` default)
     r = ctx.rule("R1q", "the trig quadrant of a bound is reduced in f32 (floor, rem_euclid(4.0)) before it is narrowed", 1)
     ctx.guarded(r, C11.r2b_unreachable_ranges)
+    from .. import quadrant as QD
+
+    r = ctx.rule("R1t", "the (lower quadrant, upper quadrant) tables of Interval::sin / cos return an enclosure in every feasible cell: 1.0 / -1.0 where an extremum lies inside the box, otherwise the larger / smaller end (decided from the positions of the extrema, cell by cell); quadrant() numbers quarter periods in order", 48 + 5)
+    ctx.guarded(r, QD.r_quadrant_tables)
     r = ctx.rule("R5b", "Interval::contains includes both bounds (what the choice functions decide on)", 1)
     ctx.guarded(r, r_contains)
     r = ctx.rule("R5", "paired guards agree: sin / cos early exits (whole period with >=), mix's single-bit-pattern tests, atan2's branch cut", 5)
